@@ -64,7 +64,7 @@ def alphabet(n):
         ops.append(("low_pass", c))
         ops.append(("high_pass", c))
     ops += [("subtract", "each"), ("subtract", "same")]
-    ops += [("dict", v) for v in ("json", "twice", "noopt", "noversion", "nomplu", "v1")]
+    ops += [("dict", v) for v in ("json", "twice", "noopt", "noversion", "nomplu", "v1", "v1asc")]
     ops += [("duplicate",), ("average",), ("getters",), ("reconstruct", "asc"), ("reconstruct", "desc")]
     return ops
 
@@ -143,6 +143,8 @@ def export(d, variant):
     x = json.loads(json.dumps(x))
     if variant == "v1":
         return to_v1(x)
+    if variant == "v1asc":
+        return to_v1(ascending(x))
     drop = {"json": (), "noopt": OPTIONAL_KEYS, "noversion": ("version",), "nomplu": ("path", "label", "uuid")}[variant]
     for k in drop:
         x.pop(k, None)
@@ -150,6 +152,16 @@ def export(d, variant):
 
 
 V1_NAMES = {"frequencies": "frequency", "real_impedances": "real", "imaginary_impedances": "imaginary"}
+
+
+def ascending(x):
+    """the same points listed in ascending order of frequency, the mask keys re-indexed with them (point i becomes point n-1-i)"""
+    n = len(x["frequencies"])
+    y = dict(x)
+    for k in ("frequencies", "real_impedances", "imaginary_impedances"):
+        y[k] = list(reversed(x[k]))
+    y["mask"] = {str(n - 1 - int(k)): v for k, v in x.get("mask", {}).items()}
+    return y
 
 
 def to_v1(x):
@@ -331,6 +343,10 @@ def repro_src(seq, want, frame=False):
         elif name == "dict":
             if op[1] == "twice":
                 lines.append("x = d.to_dict(); d = DataSet.from_dict(x); d2 = DataSet.from_dict(x); assert view(d) == view(d2)")
+            elif op[1] == "v1asc":
+                lines.append("x = json.loads(json.dumps(d.to_dict())); n_ = len(x['frequencies'])")
+                lines.append("for k_ in ('frequencies', 'real_impedances', 'imaginary_impedances'): x[k_] = list(reversed(x[k_]))")
+                lines.append(f"x['mask'] = {{str(n_ - 1 - int(k)): v for k, v in x['mask'].items()}}; x = {{ {V1_NAMES!r}.get(k, k): v for k, v in x.items() if k != 'uuid'}}; x['version'] = 1; d = DataSet.from_dict(x)")
             elif op[1] == "v1":
                 lines.append(f"x = json.loads(json.dumps(d.to_dict())); x = {{ {V1_NAMES!r}.get(k, k): v for k, v in x.items() if k != 'uuid'}}; x['version'] = 1; d = DataSet.from_dict(x)")
             else:
@@ -378,7 +394,7 @@ def opkind(op, M):
         return f"construct-{order}" + ("" if mask is None else "+mask")
     if op[0] == "dict":
         return {"json": "from_dict:json", "twice": "from_dict:same-dict-twice", "noopt": "from_dict:without-optional-keys",
-                "noversion": "from_dict:without-version", "nomplu": "from_dict:without-path-label-uuid", "v1": "from_dict:version-1"}[op[1]]
+                "noversion": "from_dict:without-version", "nomplu": "from_dict:without-path-label-uuid", "v1": "from_dict:version-1", "v1asc": "from_dict:version-1-ascending"}[op[1]]
     if op[0] == "set_mask":
         return "set_mask" + (":empty" if not op[1] else "")
     return op[0]
